@@ -326,6 +326,10 @@ class Intrinsics:
             return str(v)
         if isinstance(v, int) and not is_z3(v):
             return str(v)
+        c = self.ex.current
+        if isinstance(v, containers.SymKey) and c is not None and c.opts.get('key_text'):
+            # contract option key_text: text of an abstract identifier: an uninterpreted function of the key (C04 `with` emission)
+            return self.s_ghost(P, 'idtext', v)
         return Opaque('str')
 
     def b_repr(self, P, v):
